@@ -569,9 +569,14 @@ def seq_values(f, size):
     a5 = list(assignments(f["item"], 5))
     a3 = list(assignments(f["item"], 3))
     a2 = list(assignments(f["item"], 2))
-    if f.get("_full"):                       # seq programs: n=1 all of A5, n=2 A3 x A3, n=3 A2^3
-        out = [[]] + [[e] for e in a5] + [[x, y] for x in a3 for y in a3]
-        out += [[x, y, z] for x in a2 for y in a2 for z in a2]
+    if f.get("_full"):
+        # seq programs: no element; one element x every item assignment (5-value sets); two elements over the
+        # 3-value item assignments (over the 2-value ones when there are more than 9); three elements over the
+        # 2-value item assignments (over {first, last} of them when there are more than 4)
+        pairs = a3 if len(a3) <= 9 else a2
+        triples = a2 if len(a2) <= 4 else [a2[0], a2[-1]]
+        out = [[]] + [[e] for e in a5] + [[x, y] for x in pairs for y in pairs]
+        out += [[x, y, z] for x in triples for y in triples for z in triples]
         return out
     emin, epat, emax = a3[0], a3[len(a3) // 2], a3[-1]
     vs = [[], [emin], [epat, emax], [emax, emin, epat], [epat]]
@@ -1165,7 +1170,7 @@ def shape_of(prog):
     return ("seq", prog[2], "TLV" if prog[3] == "TLV" else tuple(sorted(prog[3])))
 
 
-CAP_QUICK = 400
+CAP_QUICK = 1300
 CAP_THOROUGH_3 = 4000
 CAP_THOROUGH_4 = 600
 NOCAP = 1 << 40
@@ -1191,9 +1196,8 @@ def all_programs(quick):
         for p in nest_programs(quick, small=False):
             if repr(p) not in seen:
                 progs.append((p, 3 if len(p[1]) == 1 else 2, NOCAP))
-    for p in seq_programs(quick):
-        progs.append((p, 5, NOCAP))
-    return progs
+    seqs = [(p, 5, NOCAP) for p in seq_programs(quick)]
+    return seqs + progs                      # the most expensive definitions first (they get a work chunk each)
 
 
 def work(chunk):
@@ -1234,7 +1238,7 @@ def cost(p):
         return min(5 ** min(len(prog[2]), 4), 256 if prog[1] == 8 else 625) + 60
     if prog[0] == "nest":
         return size ** (2 * len(prog[1]) + 2) * 2
-    return 3000
+    return 1 << 30
 
 
 def run(ctx):
@@ -1267,7 +1271,8 @@ def run(ctx):
                  "every field's boundary set {min, min+1, 0xA5.. pattern, max-1, max}; when the product exceeds the cap "
                  "(%s) the sets {min, pattern, max}, then {min, max} are used (coverage.programs_set5/3/2); nest programs "
                  "use {min, pattern, max} (depth 3%s: {min, max}); sequences hold 0 elements, 1 element x all item "
-                 "assignments, 2 x 3-value sets, 3 x 2-value sets. Then, for %s diagonal assignments, every truncation "
+                 "assignments, 2 elements over the 3-value item assignments (2-value when more than 9), 3 elements over "
+                 "the 2-value item assignments ({first,last} when more than 4). Then, for %s diagonal assignments, every truncation "
                  "offset and 2 trailing strings with length checking on and off; for the pattern assignment min-1/max+1 "
                  "of every integer, fixed buffers one octet short/long, every single-bit flip of fixed bit-field parts, "
                  "every reserved/padding bit set, 5-9 over-wide values per bit-field. programs = definitions, assignments "
